@@ -662,6 +662,14 @@ class Prefix:
         symbol: Optional[str] = None,
     ) -> None:
         if self._initialized:
+            # a prefix that was first produced anonymously (by prefix arithmetic, for
+            # example) can still be given its name and symbol afterwards
+            if self.base != 0 and name and not self.name:
+                self.name = name
+                self._by_name[name] = self
+            if self.base != 0 and symbol and not self.symbol:
+                self.symbol = symbol
+                self._by_symbol[symbol] = self
             return
 
         self.base = base
